@@ -78,7 +78,7 @@ def gen_logical_tree(rng: Any) -> dict[str, Any]:
     def make(path: str, alias: str, depth: int, kind: str, alias_shape: str | None = None) -> None:
         shape = alias_shape or rng.choice(["none", "prepare", "start", "both", "both"])
         node = {"alias": alias, "kind": kind, "shape": shape, "hard_kwargs": gen_kwargs(rng) if kind == "hard" and path else {},
-                "children": [], "ext": None, "alias_derived": alias_shape is not None}
+                "children": [], "ext": None, "alias_derived": alias_shape is not None, "starts_plugin": rng.random() < 0.25}
         if path:
             r = rng.random()
             if kind == "config_only":
@@ -168,6 +168,15 @@ class Harness:
                 add_resource(("start", path), "default", types=[h.marker_type(path, "start")])
                 add_resource(("start-explicit", path), "explicit", types=[h.marker_type(path, "start")])
                 add_resource_factory(lambda: ("factory", path), "default", types=[h.marker_type(path, "factory")])
+                if node.get("starts_plugin"):
+                    # the component starts a component tree of its own: that tree's root has no alias, its `default` stays `default`
+                    from asphalt.core import start_component as _start
+
+                    class PlugIn(Component):
+                        async def start(self_inner) -> None:  # noqa: N805
+                            add_resource(("plugin", path), "default", types=[h.marker_type(path, "plugin")])
+
+                    await _start(PlugIn, timeout=None)
 
             methods: dict[str, Any] = {}
             if node["shape"] in ("prepare", "both"):
@@ -291,7 +300,7 @@ async def one_run(h: Harness, cfg: dict[str, Any], out: dict[str, Any]) -> None:
             tg.cancel_scope.cancel()
         seen = {}
         for p in h.tree["nodes"]:
-            for what in ("prepare", "start", "factory"):
+            for what in ("prepare", "start", "factory", "plugin"):
                 T = h.marker_type(p, what)
                 if what == "factory":
                     names = sorted(n for (types, n, is_f) in h.events if T in types and is_f)
@@ -368,6 +377,11 @@ async def scenario(case: dict[str, Any], out: dict[str, Any]) -> None:
                 names = sorted(nm for (types, nm, is_f) in r["events"] if T in types and not is_f)
                 if names != want:
                     bad("config-event-name", f"ResourceEvents for start() resources of {p!r}: names {names}, expected {want}")
+            if n.get("starts_plugin") and n["shape"] in ("start", "both"):
+                inc("nested_trees_started_by_components")
+                if r["seen"][(p, "plugin")] != ["default"]:
+                    bad("config-default-name-nested-tree", f"the root of a component tree started from start() of {p!r} (alias {n['alias']!r}) added a resource as `default`; "
+                                                           f"it appears under {r['seen'][(p, 'plugin')]}")
             if "/" in n["alias"]:
                 inc("alias_with_suffix")
             if n.get("alias_derived"):
